@@ -115,6 +115,11 @@ def run_property(prop, tier, jobs, C, extra=None):
             continue
         if r.get('static_violation'):
             # a frame fact decided on the source text: the offending site is the witness
+            if r.get('eval_witness'):
+                # the value was read from the imported real code: that evaluation is the replay
+                path = write_replay_file(prop, r, {'confirmed': True, 'evaluated': r.get('reason'), 'tried': 1})
+                violations.append((r, path, ''))
+                continue
             path = write_replay_file(prop, r, {'confirmed': False, 'site': r.get('reason'), 'tried': 0})
             violations.append((r, path, ' no-failing-input-found'))
             continue
